@@ -557,12 +557,21 @@ def _tables(ctx, prog):
     # the file list itself, or one computed from it by a helper (expanding
     # directories, ...) — but not a re-ordered / truncated / set-ified list
     direct = rf is RF
+    def whole_list(a: T) -> bool:
+        # the given list itself or a list accumulated from it (not one of
+        # its entries, e.g. the files found in one directory)
+        while is_call_to(a, "builtins.list", "builtins.tuple",
+                         "builtins.set", "builtins.frozenset") and \
+                len(a.args[1]) == 1:
+            a = a.args[1][0]
+        return a is RF or (a.op in ("loopout", "loopvar", "mut") and any(
+            x is RF for x in a.walk()))
     derived = rf is not None and not direct and any(
         x is RF for x in rf.walk()) and not any(
         (x.op == "sub" and x.args[0] is RF and x.args[1].op == "slice") or
         (is_call_to(x, "builtins.sorted", "builtins.reversed",
                     "builtins.set", "builtins.frozenset") and x.args[1] and
-         x.args[1][0] is RF) for x in rf.walk())
+         whole_list(x.args[1][0])) for x in rf.walk())
     ok = (direct or derived) and \
         b.get("use_filenames") is A("use_filenames") and \
         b.get("merge") is A("merge")
